@@ -68,7 +68,10 @@ func MachOStrip(img []byte) ([]byte, error) {
 			for _, l2 := range f.Loads {
 				r2 := l2.Raw()
 				c2 := bo.Uint32(r2)
-				name := string(bytes.TrimRight(r2[8:24], "\x00"))
+				name := ""
+				if len(r2) >= 24 {
+					name = string(bytes.TrimRight(r2[8:24], "\x00"))
+				}
 				if c2 == uint32(macho.LoadCmdSegment64) && name == "__LINKEDIT" {
 					off := bo.Uint64(r2[40:])
 					bo.PutUint64(out[p2+48:], uint64(sigOff)-off)
